@@ -661,6 +661,47 @@ fn builder_leg(depth: usize) -> Value {
             }
         }
     }
+    // call histories with a run directory: a step is run (or fails to start) in a directory other
+    // than the process's, then the tree is recorded again by relative path. Whatever the first call
+    // did - succeeded, exited non-zero, could not be started - the process is where it was, and the
+    // second recording sees what the reference walker sees from there.
+    {
+        let before = std::env::current_dir().ok();
+        let cmds: Vec<(&str, Vec<&str>)> = vec![("true", vec!["true"]), ("exit 3", vec!["sh", "-c", "exit 3"]), ("cannot be started", vec!["/nonexistent/no-such-command"]), ("nothing to run", vec![])];
+        for run_dir in [None, Some("."), Some("t"), Some("t/t"), Some("no-such-directory")] {
+            for (cname, argv) in &cmds {
+                n += 1;
+                let query = json!({"history": ["in_toto_run", "record_artifacts"], "run_dir": run_dir, "command": cname});
+                let r1 = guard(|| in_toto_run("step", run_dir, &["t"], &["t"], argv, None, None, None).is_ok());
+                if let Guard::Panicked(l, m) = &r1 {
+                    mismatches.push(json!({"key": format!("panic:{l}"), "query": query, "what": m}));
+                }
+                let after = std::env::current_dir().ok();
+                if after != before {
+                    mismatches.push(json!({"key": "working-directory-changed-by-a-call", "query": query, "before": format!("{before:?}"), "after": format!("{after:?}")}));
+                    if let Some(b) = &before {
+                        let _ = std::env::set_current_dir(b);
+                    }
+                    continue;
+                }
+                let reference = fswalk(&s(&["t"]), None, None);
+                match run_impl(&s(&["t"]), None, None) {
+                    Err((l, m)) => mismatches.push(json!({"key": format!("panic:{l}"), "query": query, "what": m})),
+                    Ok(imp) => {
+                        let same = match (&imp, &reference) {
+                            (Expect::Error(_), Expect::Error(_)) => true,
+                            (Expect::Map(a), Expect::Map(b)) => a == b,
+                            (_, Expect::MapOrError(_)) => true,
+                            _ => false,
+                        };
+                        if !same {
+                            mismatches.push(json!({"key": "recording-differs-after-a-run", "query": query, "implementation": format!("{imp:?}"), "reference": format!("{reference:?}")}));
+                        }
+                    }
+                }
+            }
+        }
+    }
     let _ = std::env::set_current_dir("/");
     mismatches.truncate(12);
     json!({"queries": n, "mismatches": mismatches, "reference_maps": n, "reference_errors": 0, "reference_entries": entries})
@@ -854,7 +895,7 @@ pub fn run(tier: Tier) -> i32 {
     }
     crate::envprobe::judge(&mut acc, "C18:", &mut c.extra);
     c.acc = acc;
-    c.rule = "state = directory tree reached by appending one node under an existing directory (mkdir; write with size in {0,1,1023,1024,1025,4097,8193,70001} for single-node trees and {1,1025} otherwise; symlink absolute/relative to any existing node or to an ancestor incl. the root), names assigned in the fixed order a, ab, .h, 'e é', deduplicated on the sorted listing; per tree a menu of queries (whole tree x 7 strip lists x 10 algorithm lists (incl. lists that mix a supported with an unsupported or mis-cased name: an error, never a silently shortened digest set); non-normalised roots; each top-level node as root; two roots in both orders; overlapping and repeated roots) through record_artifacts in a private cwd, compared with an independent walker; plus in_toto_run with 7 commands on a subset, and with 6 argument variants (materials and products from different paths, other algorithms, strip prefixes, one side empty) x 4 commands; plus every history of depth <= 4 (5) over {add_material(f), add_product(f), write(f, c)} on 2 files x 3 contents through LinkMetadataBuilder, calculate_hashes over 8 sizes x 6 reader shapes (short reads, interrupted) x 4 algorithm lists; and record_artifact on one file x 8 sizes x 4 algorithm lists x 8 strip lists x 4 spellings; a nested tree whose directory names repeat the strip prefix (t/f1, t/t/f2, t/t/t/f3, t/tt, t/t/tt2) x 9 strip lists x 3 root lists through record_artifacts and file by file through record_artifact. non-trivial = trees with a symlink, and run cases".into();
+    c.rule = "state = directory tree reached by appending one node under an existing directory (mkdir; write with size in {0,1,1023,1024,1025,4097,8193,70001} for single-node trees and {1,1025} otherwise; symlink absolute/relative to any existing node or to an ancestor incl. the root), names assigned in the fixed order a, ab, .h, 'e é', deduplicated on the sorted listing; per tree a menu of queries (whole tree x 7 strip lists x 10 algorithm lists (incl. lists that mix a supported with an unsupported or mis-cased name: an error, never a silently shortened digest set); non-normalised roots; each top-level node as root; two roots in both orders; overlapping and repeated roots) through record_artifacts in a private cwd, compared with an independent walker; plus in_toto_run with 7 commands on a subset, and with 6 argument variants (materials and products from different paths, other algorithms, strip prefixes, one side empty) x 4 commands; plus every history of depth <= 4 (5) over {add_material(f), add_product(f), write(f, c)} on 2 files x 3 contents through LinkMetadataBuilder, calculate_hashes over 8 sizes x 6 reader shapes (short reads, interrupted) x 4 algorithm lists; and record_artifact on one file x 8 sizes x 4 algorithm lists x 8 strip lists x 4 spellings; call histories (a step run - or failing to start - with run directory none / . / t / t/t / a missing one, then the tree recorded again: the process's working directory is unchanged and the recording equals the reference); a nested tree whose directory names repeat the strip prefix (t/f1, t/t/f2, t/t/t/f3, t/tt, t/t/tt2) x 9 strip lists x 3 root lists through record_artifacts and file by file through record_artifact. non-trivial = trees with a symlink, and run cases".into();
     c.bound_completed = format!("all trees with <= {max_nodes} nodes ({} trees{})", trees.len(), if capped { ", capped" } else { "" });
     c.assume("real filesystem (tmpfs); no dangling symlinks, devices, permission errors or non-UTF-8 names");
     c.assume("a file reached twice through the same key is one entry; two different files with one key must be an error");
